@@ -554,7 +554,7 @@ impl Prop for C07 {
         run(c, o)
     }
     fn rule() -> &'static str {
-        "proptest: valid streams from the independent encoder (0-5 frames, identity or really compressed) mutated by well-formed zstd frame headers declaring absurd content sizes, flag->2..255/0/1, length +-delta / absolute (4 MiB+-1, 2^31, 2^32-1), truncation at any byte, byte corruption, inserted garbage, duplicated frames - or raw random bytes; any chunking (0,1,2-5,<=100,<=9000) and body Pending pattern; decoder in {raw, prost}; direction in {request, response}; trailers in {none, OK, error status, malformed grpc-status, no grpc-status}; body error injected before any chunk. After the first Err/None the stream is polled 6 more times. Oracle: no panic, poll budget respected, body not re-polled after its end, i-th message equals i-th frame of the independent reference parse, at most one Err ever and only None after it, None sticky, definite malformations (bad flag, flag 1 without encoding, over-limit length, undecodable protobuf, truncation with no trailers) must produce an error. Non-trivial: reference parse stops early (malformed) or a body error is injected; distinct = distinct serialised case. The decoder's codec reports yield thresholds 0, 1, 1024 and 32 KiB."
+        "proptest: valid streams from the independent encoder (0-5 frames, identity or really compressed) mutated by well-formed zstd frame headers declaring absurd content sizes, flag->2..255/0/1, length +-delta / absolute (4 MiB+-1, 2^31, 2^32-1), truncation at any byte, byte corruption, inserted garbage, duplicated frames - or raw random bytes; any chunking (0,1,2-5,<=100,<=9000) and body Pending pattern; decoder in {raw, prost}; direction in {request, response}; trailers in {none, OK, error status, malformed grpc-status, no grpc-status}; body error injected before any chunk. After the first Err/None the stream is polled 6 more times. Oracle: no panic, poll budget respected, body not re-polled after its end, i-th message equals i-th frame of the independent reference parse, at most one Err ever and only None after it, None sticky, definite malformations (bad flag, flag 1 without encoding, over-limit length, undecodable protobuf, truncation with no trailers) must produce an error. Non-trivial: reference parse stops early (malformed) or a body error is injected; distinct = distinct serialised case. The decoder's codec reports yield thresholds 0, 1, 1024 and 32 KiB. Frames behind a compressed frame of unknown decompression are still compared (nothing but the delimited frames may come out); PadCompressed puts 1-100 KiB of well-formed one-byte frames behind the end of a compressed stream inside its frame; every DATA frame is handed over as a two-segment Buf; malformed grpc-status values include 17-20, 100, 1e1, +1."
     }
     fn assumptions() -> Vec<String> {
         vec![
